@@ -10,6 +10,8 @@
 (*    inc.start a / inc.done a    a VM processes one line `total[a]++`     *)
 (*    exp.start a / exp.value a v / exp.end a    an exporter ran and        *)
 (*                                carried the value v for that label       *)
+(*    bulk a n                    VM a completed n such lines (no export   *)
+(*                                overlapped; logged after the fact)       *)
 (*    final v                     the value after everybody stopped        *)
 (*    reset                       next trace                               *)
 (* Not logged, hence silent actions here: the instant the atomic add takes *)
@@ -67,6 +69,11 @@ ExpEnd == /\ Is("exp.end") /\ loaded[Ev.a] # <<"idle">>
           /\ loaded' = [loaded EXCEPT ![Ev.a] = <<"idle">>]
           /\ Consume /\ UNCHANGED <<cell, pending, inflight>>
 
+\* n increments that started and completed
+Bulk == /\ Is("bulk") /\ ~inflight[Ev.a]
+        /\ cell' = cell + Ev.v
+        /\ Consume /\ UNCHANGED <<pending, inflight, loaded>>
+
 \* after everybody stopped: no increment was lost
 Final == /\ Is("final") /\ \A a \in Names : ~inflight[a] /\ ~pending[a]
          /\ Ev.v = cell
@@ -77,7 +84,7 @@ Reset == /\ Is("reset")
          /\ loaded' = [a \in Names |-> <<"idle">>]
          /\ Consume
 
-Next == IncStart \/ IncDone \/ ExpStart \/ ExpValue \/ ExpEnd \/ Final \/ Reset
+Next == IncStart \/ IncDone \/ Bulk \/ ExpStart \/ ExpValue \/ ExpEnd \/ Final \/ Reset
         \/ (\E a \in Names : Apply(a)) \/ (\E a \in Names : Load(a))
 Spec == Init /\ [][Next]_vars
 
